@@ -266,3 +266,66 @@ class OrGroups:
 
     def post_definition(self, result):
         return seq_eq(result['result'], [g.name for g in [f for f in feats(self.model) if any(rclass(r) == OR_ for r in f.relations)]])
+
+
+# ------------------------------------------------------------------ constraint metrics: sizes against the documented forms
+from contracts.spec_ctc import wf_node, req_form, exc_form
+
+
+@spec
+def ctcs_ok(op: 'FMMetrics') -> bool:
+    return all(c is not None and wf_node(c.ast.root) for c in op.model.ctcs)
+
+
+@contract(MET, 'FMMetrics.requires_constraints', prop='C17')
+class RequiresConstraintsMetric:
+    opaque_str = ('Constraint',)
+
+    def pre(self):
+        return wf() and cache_ok(self) and ctcs_ok(self)
+
+    def post_size(self, result):
+        return result['size'] == len(result['result'])
+
+    def post_definition(self, result):
+        # as many entries as constraints in one of the documented requires forms
+        return result['size'] == len([str(c) for c in [d for d in self.model.ctcs if req_form(d.ast.root)]])
+
+
+@contract(MET, 'FMMetrics.excludes_constraints', prop='C17')
+class ExcludesConstraintsMetric:
+    opaque_str = ('Constraint',)
+
+    def pre(self):
+        return wf() and cache_ok(self) and ctcs_ok(self)
+
+    def post_size(self, result):
+        return result['size'] == len(result['result'])
+
+    def post_definition(self, result):
+        return result['size'] == len([str(c) for c in [d for d in self.model.ctcs if exc_form(d.ast.root)]])
+
+
+@contract(MET, 'FMMetrics.simple_constraints', prop='C17')
+class SimpleConstraintsMetric:
+    opaque_str = ('Constraint',)
+
+    def pre(self):
+        return wf() and cache_ok(self) and ctcs_ok(self)
+
+    def post_size(self, result):
+        return result['size'] == len(result['result'])
+
+    def post_definition(self, result):
+        return result['size'] == len([str(c) for c in [d for d in self.model.ctcs if req_form(d.ast.root) or exc_form(d.ast.root)]])
+
+
+@contract(MET, 'FMMetrics.cross_tree_constraints', prop='C17')
+class CrossTreeConstraintsMetric:
+    opaque_str = ('Constraint',)
+
+    def pre(self):
+        return wf() and cache_ok(self) and ctcs_ok(self)
+
+    def post_definition(self, result):
+        return result['size'] == len(self.model.ctcs) and result['size'] == len(result['result'])
